@@ -27,6 +27,7 @@ func init() {
 			{ID: "C09.R4", Floor: 10, Run: c09r4, Text: "closing discipline (path summaries): Next and Step return false only on paths with exactly one close and true only on paths with none; Close closes exactly once; no other exported Query method closes"},
 			{ID: "C09.R5", Floor: 1, Run: c09r5, Text: "registration rollback: a component-registry insert that happens before the lock test is followed on every path by the lock test, and the locked edge calls a function whose mod-set covers the insert's before panicking"},
 			{ID: "C09.R7", Floor: 4, Run: c09r7, Text: "Reset restores the lock state (= C15.R1 for lockMask and bitPool): every run-state field of the lock mask and the lock-bit pool is written by World.Reset, so that lock bits issued after a reset are distinct"},
+			{ID: "C09.R8", Floor: 2, Run: c09r8, Text: "the lock test sees every lock bit (= C04.R1/R2 for Mask.IsZero, and C04.R3 for Get/Set): the zero test of the lock mask covers every word of the mask"},
 			{ID: "C09.R6", Floor: 2, Run: c09r6, Text: "the lock-bit pool's array length and the constant in its exhaustion guard (panic edge dominating the array write) both equal MaskTotalBits of the build"},
 		},
 	})
@@ -1019,4 +1020,20 @@ func c09r7(p *Prog, r *Reporter) {
 func mtbInt(c *types.Const) int64 {
 	v, _ := constant.Int64Val(c.Val())
 	return v
+}
+
+func c09r8(p *Prog, r *Reporter) {
+	tmp := &Reporter{p: p, rule: r.rule}
+	c04r1(p, tmp)
+	c04r2(p, tmp)
+	for _, o := range tmp.obs {
+		if strings.HasSuffix(o.Func, ".IsZero") || o.Status == "anchor-unresolved" {
+			r.add(o.Func, o.Construct, o.Pos, o.Status, o.Detail, o.Nontrivial)
+		}
+	}
+	tmp2 := &Reporter{p: p, rule: r.rule}
+	c04r3(p, tmp2)
+	for _, o := range tmp2.obs {
+		r.add(o.Func, o.Construct, o.Pos, o.Status, o.Detail, o.Nontrivial)
+	}
 }
